@@ -50,6 +50,8 @@ class Event:
             return 'return ' + txt(self.expr)
         if self.kind == 'opaque':
             return 'opaque %s' % type(self.node.ast).__name__
+        if self.kind == 'bind':
+            return '%s := %s' % (txt(self.target), txt(self.expr))
         return self.kind
 
     def __repr__(self):
@@ -137,6 +139,7 @@ class Enumerator:
         self.assume_inner = assume_inner
         self.refine_raises = refine_raises
         self.trust_summaries = False
+        self.keep = None            # keep(name, value, fi) -> bool: leave a local symbolic
         self.opaque = opaque        # opaque(stmt, fi) -> bool  (slicing of compound statements)
         self.stop = stop            # stop(node, fi) -> bool    (cut the path before this node)
         self._raise_cache = {}
@@ -155,7 +158,10 @@ class Enumerator:
         callee's paths are enumerated with the argument expressions bound, so that raise
         sites unreachable for literal arguments are pruned (DESIGN.md 3.2 refinement i)."""
         callee, cctx = res.funcs[0]
-        if callee.qualname in frame.stack or frame.depth >= self.max_depth:
+        if callee.qualname in frame.stack:
+            # recursive call: whatever it raises is raised by the outer activation as well
+            return set()
+        if frame.depth >= self.max_depth:
             return res.raises
         args = bind_args(callee, cexpr, getattr(res, 'self_expr', None))
         if getattr(res, 'args_override', None) is not None:
@@ -401,6 +407,8 @@ class _Frame:
                 env2[h.name] = ast.Name(EXC, ast.Load())
             from .cfg import _handler_names
             names = _handler_names(h)
+            if hcls is None and names and len(names) == 1:
+                hcls = names[0]
             self.emit(events, 'handler', node=node, cls='|'.join(names) if names else '*')
             # the class being handled: keep the routed class if more specific
             self.follow_normal(node, env2, events, visits, None, hcls)
@@ -701,6 +709,14 @@ class _Frame:
     # -- statements -----------------------------------------------------------------
     def bind_target(self, target, value, env, events, node):
         if isinstance(target, ast.Name):
+            if self.en.keep is not None and self.depth == 0 and \
+                    self.en.keep(target.id, value, self.fi):
+                # the name stays symbolic; its definition is recorded for the rule to check
+                env[target.id] = None
+                if events is not None:
+                    events.append(Event('bind', expr=value, target=target, node=node,
+                                        func=self.fi, depth=self.depth, ctx=self.ctx))
+                return
             env[target.id] = value
         elif isinstance(target, (ast.Tuple, ast.List)):
             if isinstance(value, (ast.Tuple, ast.List)) and len(value.elts) == len(target.elts):
